@@ -274,6 +274,13 @@ def family_items(name, tier):
     if name == 'three-tiny':
         return list(F.compose(3, F.TINY_LEAVES, ops=['^', '+', '&', '='],
                               funcs=('SUM',)))
+    if name == 'after-tokenize':
+        return [('ref', 'A1:B2'), ('ref', '$A$1:$B$2'),
+                ('call', 'SUM', [('ref', 'A1:B2'), ('ref', 'Sheet2!A1:B2')]),
+                ('bin', '+', ('ref', "'My Sheet'!A1:B2"), ('num', '1')),
+                ('ref', 'A:A'), ('neg', ('ref', '1:1')),
+                ('call', 'IF', [('ref', 'A1'), ('ref', 'B1:C2'),
+                                ('str', 'A1:B2')])]
     if name == 'chains':
         leaves = [('ref', 'A1'), ('num', '2'), ('ref', 'B1'),
                   ('ref', '$C$3'), ('num', '1.5')]
@@ -323,7 +330,7 @@ FAMILIES = {
     'leaf': 'exhaustive', 'one-full': 'few', 'calls-full': 'few',
     'calls-3': 'few', 'small-exh': 'exhaustive', 'two-reduced': 'few',
     'paren': 'few', 'strings': 'single', 'names': 'few', 'twins': 'single',
-    'chains': 'few',
+    'chains': 'few', 'after-tokenize': 'few',
 }
 _ITEMS = {}
 
@@ -353,6 +360,12 @@ def run_shard(shard, ctx):
     tier = ctx.tier
     max_exh = BOUNDS[tier]['exhaustive_ws_gaps_up_to']
     its = items(name, tier)[shard['lo']:shard['hi']]
+    if name == 'after-tokenize':
+        # the tokenizer's public switches used on OTHER formulas first: what
+        # they set up is theirs
+        for text in ('=SUM(A1:B2)', '=A1:B2', "='My Sheet'!A1:B2+1"):
+            lib.observe(lib.xlparser.FormulaParser().tokenize, text, True)
+            lib.observe(lib.xlparser.FormulaParser().parse, text, {}, True)
     for it in its:
         if name == 'twins':
             gi, oi, trees = it
